@@ -53,6 +53,9 @@ def pool(tier):
   for ps in pw3:
     for cs in c3:
       out.append([[p, c] for p, c in zip(ps, cs)])
+  # three and four terms whose square / product has partial sums that cancel exactly on the way
+  out += [[[0, "1/2"], [1, "1"], [2, "-1"]], [[0, "1"], [1, "2"], [2, "-2"]], [[-1, "1"], [0, "2"], [1, "-2"]],
+          [[0, "1"], [1, "1"], [2, "-1/2"], [3, "1"]], [[0, "2"], [1, "-2"], [2, "1"], [3, "-1"]]]
   return out
 
 
@@ -232,8 +235,17 @@ def run_single(case):
       check_poly(p / F(3, 2), rr.pscale(rp, F(2, 3)), "ring:scalar-div", "scalar division wrong", n) or \
       check_poly(2 - p, rr.psub({0: F(2)}, rp), "ring:rsub", "reflected subtraction wrong", n)
   if v: return v
+  # the very same object on both sides of an operator
+  for name, got, exp in (("p*p", p * p, rr.pmul(rp, rp)), ("p+p", p + p, rr.padd(rp, rp)), ("p-p", p - p, {}),
+                         ("p*p*p", p * p * p, rr.pmul(rr.pmul(rp, rp), rp)), ("p*(p*p)", p * (p * p), rr.pmul(rp, rr.pmul(rp, rp))),
+                         ("p(p)" if not has_neg(ps) else "p*p", (p(p) if not has_neg(ps) else p * p), None)):
+    if exp is None:
+      continue
+    v = check_poly(got, exp, "ring:same-object:" + name, "%s with one object on both sides differs from the product of two equal polynomials" % name, n)
+    if v: return v
   acc = {0: F(1)}
-  for e in range(0, maxexp + 1):
+  big = 9 if len(ps) <= 3 and all(abs(pw) <= 2 for pw, _ in ps) else maxexp      # exponents up to 9 where the result stays small
+  for e in list(range(0, maxexp + 1)) + [x_ for x_ in range(maxexp + 1, big + 1)]:
     v = check_poly(mk(ps) ** e, acc, "ring:pow", "p**n is not the n-fold product", n)
     if v:
       v.viol["expected"] = {"n": e, "terms": v.viol["expected"]}
